@@ -737,3 +737,141 @@ def make_knapsack_grid_generator(num_items: int, total_budget: float):
             )
 
     return GridGenerator(num_items, total_budget)
+
+
+# ------------------------------------------------------------------------------------------------- configuration fuzzing
+# Random configurations inside the documented parameter ranges (thorough tier): the fixed matrix above names the hostile
+# corners, this sampler walks the rest of the "all constructor configurations" quantifier. Ids spell out the parameters, and a
+# shard / replay file carries the whole dict, so a witness never depends on the sampler.
+
+def random_config(env: str, rng) -> Dict[str, Any]:
+    ri = lambda a, b: int(rng.integers(a, b + 1))  # inclusive
+    ch = lambda xs: xs[int(rng.integers(0, len(xs)))]
+    c: Dict[str, Any] = {}
+    if env == "Game2048":
+        c = dict(board_size=ri(2, 6))
+    elif env == "GraphColoring":
+        c = dict(num_nodes=ri(2, 14), edge_probability=ch([0.1, 0.3, 0.5, 0.7, 0.9]))
+    elif env == "Minesweeper":
+        r, k = ri(2, 8), ri(2, 8)
+        c = dict(rows=r, cols=k, mines=ri(1, r * k - 1))
+        if rng.random() < 0.4:
+            c["rewards"] = ch([[2.0, -3.0, -5.0], [1, -1, -2], [0.5, 0.0, -1.0]])
+    elif env == "RubiksCube":
+        c = dict(cube_size=ri(2, 5), scrambles=ri(0, 9), time_limit=ri(1, 25))
+    elif env == "SlidingTilePuzzle":
+        c = dict(grid_size=ri(2, 5), moves=ri(0, 60), time_limit=ri(1, 40))
+        if rng.random() < 0.5:
+            c["reward"] = ch(["sparse", "dense"])
+    elif env == "BinPack":
+        me = ri(6, 30)
+        c = dict(gen="random", max_items=ri(3, 20), max_ems=me, split_same=ri(1, 9), obs_num_ems=ri(2, me), debug=True)
+        if rng.random() < 0.4:
+            c["normalize"] = False
+        if rng.random() < 0.4:
+            c["reward"] = "sparse"
+        if rng.random() < 0.5:
+            c["container"] = [ri(3, 60) * 100, ri(3, 30) * 100, ri(3, 30) * 100]
+    elif env == "FlatPack":
+        c = dict(row_blocks=ri(1, 4), col_blocks=ri(1, 4))
+        if rng.random() < 0.5:
+            c["reward"] = "block"
+    elif env == "JobShop":
+        m = ri(2, 5)
+        c = dict(jobs=ri(2, 8), machines=m, ops=ri(1, 5), dur=ri(1, 5))
+    elif env == "Knapsack":
+        c = dict(items=ri(2, 20), budget=ch([0.5, 1.0, 2.0, 3, 5.5]))
+        if rng.random() < 0.5:
+            c["reward"] = "sparse"
+        if rng.random() < 0.3:
+            c["gen"] = "grid"
+    elif env == "Tetris":
+        c = dict(rows=ri(4, 10), cols=ri(4, 10), time_limit=ri(1, 40))
+    elif env == "Cleaner":
+        c = dict(rows=ri(3, 11), cols=ri(3, 11), agents=ri(1, 4))
+        if rng.random() < 0.6:
+            c["time_limit"] = ri(1, 30)
+        if rng.random() < 0.5:
+            c["penalty"] = ch([0.0, 0.25, 1, 2.0])
+    elif env == "Connector":
+        g = ri(3, 8)
+        c = dict(grid_size=g, agents=ri(1, max(1, min(g, 6))), time_limit=ri(1, 30))
+        if rng.random() < 0.5:
+            c["gen"] = "uniform"
+        if rng.random() < 0.3:
+            c["reward_coeffs"] = ch([[2.0, -0.5], [3, -1], [1.0, 0.0]])
+    elif env == "CVRP":
+        cap = ri(2, 30)
+        c = dict(nodes=ri(2, 15), cap=cap, demand=ri(1, cap))
+        if rng.random() < 0.5:
+            c["reward"] = "sparse"
+    elif env == "LevelBasedForaging":
+        for _ in range(50):
+            g, a, f = ri(5, 9), ri(1, 4), ri(1, 3)
+            if (g - 2) ** 2 - a > 5 * f:
+                break
+        c = dict(grid_size=g, agents=a, food=f, fov=ri(1, g), max_level=ri(2, 4), time_limit=ri(1, 40))
+        if rng.random() < 0.3:
+            c["force_coop"] = True
+        if rng.random() < 0.4:
+            c["grid_obs"] = True
+        if rng.random() < 0.4:
+            c["normalize"] = False
+        if rng.random() < 0.4:
+            c["penalty"] = ch([0.5, 1, 2.0])
+    elif env == "Maze":
+        c = dict(rows=ri(3, 11), cols=ri(3, 11))
+        if rng.random() < 0.6:
+            c["time_limit"] = ri(1, 30)
+    elif env == "MMST":
+        for _ in range(50):
+            n, a, p = ri(10, 24), ri(2, 4), ri(2, 3)
+            if a * p <= 0.7 * n and n // a >= p + 2:
+                break
+        c = dict(nodes=n, edges=ri(int(1.4 * n), 2 * n), degree=ri(5, 6), agents=a, per_agent=p, time_limit=ri(1, 40))
+    elif env == "MultiCVRP":
+        c = dict(customers=ch([6, 6, 20]), vehicles=ri(2, 3))  # the reward functions only know a few (customers, vehicles) pairs
+        if rng.random() < 0.5:
+            c["reward"] = "sparse"
+    elif env == "RobotWarehouse":
+        for _ in range(50):
+            sr, sc, h, q = ri(1, 2), ch([1, 3, 5]), ri(1, 4), ri(1, 6)
+            if sr * sc >= 2 and 2 * sr * sc * h > q + 1:  # more shelves than the request queue holds (a 1x1 layout has none)
+                break
+        c = dict(shelf_rows=sr, shelf_cols=sc, height=h, agents=ri(1, 4), sensor=ri(1, 2), queue=q, time_limit=ri(1, 30))
+    elif env == "Snake":
+        c = dict(rows=ri(2, 8), cols=ri(2, 8), time_limit=ri(1, 60))
+    elif env == "TSP":
+        c = dict(cities=ri(1, 12))
+        if rng.random() < 0.5:
+            c["reward"] = "sparse"
+    else:
+        return {}
+    cid = "fz_" + "_".join(f"{k[:3]}{'x'.join(str(x) for x in v) if isinstance(v, list) else v}" for k, v in c.items() if k != "debug")
+    c["id"] = cid.replace(" ", "").replace(".", "p")[:70]
+    return c
+
+
+FUZZ_ENVS = ["Game2048", "GraphColoring", "Minesweeper", "RubiksCube", "SlidingTilePuzzle", "BinPack", "FlatPack", "JobShop", "Knapsack",
+             "Tetris", "Cleaner", "Connector", "CVRP", "LevelBasedForaging", "Maze", "MMST", "MultiCVRP", "RobotWarehouse", "Snake", "TSP"]
+
+
+def fuzz_configs(env: str, seed: int, n: int) -> List[Dict[str, Any]]:
+    """`n` random configurations of `env` for this seed that the constructors accept (deterministic in (env, seed))."""
+    import zlib
+
+    import numpy as np
+
+    if env not in FUZZ_ENVS:
+        return []
+    rng = np.random.default_rng([int(seed), zlib.crc32(env.encode()), 77])
+    out, seen = [], set()
+    for _ in range(8 * n):
+        if len(out) >= n:
+            break
+        c = random_config(env, rng)
+        if not c or c["id"] in seen:
+            continue
+        seen.add(c["id"])
+        out.append(c)
+    return out
